@@ -1192,6 +1192,12 @@ class CursedHR:
 
                         while (key := self.window.getkey()) != chr(curses.ascii.ESC):
                             match key:
+                                case "KEY_RESIZE":
+                                    max_lines, max_columns = self.window.getmaxyx()
+                                    max_lines -= 1
+                                    display_entries = self.calculate_display_entries(
+                                        entry_start, line_start
+                                    )
                                 case "\n":
                                     try:
                                         filter_tmp = parse_filter(fh_tmp[fh_index])
